@@ -248,10 +248,22 @@ const (
 	maskNot = 0x87A9CD14CAEB50EB
 	maskAnd = 0xF9F1F5ADCB67A077
 	maskOr  = 0xBFB85A99B03E78E7
+
+	// cacheKeyPrime is the 64-bit FNV prime.
+	cacheKeyPrime = 0x100000001B3
 )
 
+// combineCacheKey folds the cache key of an operand into the key of its operator.
+// The operand keys are chained through a multiplication (FNV-1a style over 64-bit
+// words) instead of being XORed together: a plain XOR is commutative and
+// self-cancelling, so that e.g. AND(x, x) had the same key for every x and
+// AND(OR(a, c), OR(b, c)) the same key as AND(NOT a, NOT b).
+func combineCacheKey(key, operandKey uint64) uint64 {
+	return (key ^ bits.RotateLeft64(operandKey, 1)) * cacheKeyPrime
+}
+
 func (e *ExprNot) cacheKey() uint64 {
-	return bits.RotateLeft64(e.Expr.cacheKey(), 1) ^ maskNot
+	return combineCacheKey(maskNot, e.Expr.cacheKey())
 }
 
 type ExprAnd struct {
@@ -304,7 +316,7 @@ func (e *ExprAnd) String() string {
 func (e *ExprAnd) cacheKey() uint64 {
 	key := uint64(maskAnd)
 	for _, e := range e.Exprs {
-		key = key ^ bits.RotateLeft64(e.cacheKey(), 1)
+		key = combineCacheKey(key, e.cacheKey())
 	}
 
 	return key
@@ -360,7 +372,7 @@ func (e *ExprOr) String() string {
 func (e *ExprOr) cacheKey() uint64 {
 	key := uint64(maskOr)
 	for _, e := range e.Exprs {
-		key = key ^ bits.RotateLeft64(e.cacheKey(), 1)
+		key = combineCacheKey(key, e.cacheKey())
 	}
 
 	return key
